@@ -786,6 +786,11 @@ fn c16_fixed_pairs(ctx: &mut Ctx) {
         ("procs:\n      name: evil.exe\n      pid: 4", vec!["A", "not A"]),
         ("cmd:\n      argv[2]: lsass.dmp", vec!["A", "not A"]),
         ("proc.args[0]: mimikatz.exe", vec!["A", "not A"]),
+        // top-level keys against documents that wrap the record in an envelope member, or carry a
+        // member with a name that is special in YAML text (`<<`): only the addressed level is read
+        ("EventID: 4688", vec!["A", "not A"]),
+        ("EventID: 4688\n    Image: '*cmd.exe'", vec!["A", "not A"]),
+        ("name: evil", vec!["A", "not A"]),
     ];
     let pairs = [
         ("{proc: {}}", "{proc: {pid: 1}}"),
@@ -820,6 +825,18 @@ fn c16_fixed_pairs(ctx: &mut Ctx) {
         ("{proc: {args: {n: 1}}}", "{proc: {args: {n: 1, '0': mimikatz.exe}}}"),
         ("{cmd: {argv: {}}}", "{cmd: {argv: {'2': lsass.dmp}}}"),
         ("{cmd: {argv: [a, b]}}", "{cmd: {argv: [a, b], 'argv[2]': lsass.dmp}}"),
+        ("{Event: {EventID: 4688, Image: cmd.exe}}", "{Event: {EventID: 4688, Image: cmd.exe}, machine: ws-01}"),
+        ("{Event: {}}", "{Event: {EventID: 4688, Image: cmd.exe}}"),
+        ("{_source: {EventID: 4688}}", "{_source: {EventID: 1}}"),
+        ("{Event: {EventID: 4688}}", "{Event: {EventID: 4688, EventData: {EventID: 1}}}"),
+        ("{Event: {System: {}}}", "{Event: {System: {EventID: 4688, Image: cmd.exe}}}"),
+        ("{'<<': {name: evil}}", "{'<<': {name: good}}"),
+        ("{other: 1}", "{other: 1, '<<': {name: evil, EventID: 4688}}"),
+        ("{'<<': [{name: evil}, {EventID: 4688}]}", "{'<<': []}"),
+        ("{proc: {'<<': {name: evil}}}", "{proc: {}}"),
+        ("{proc: [{'<<': {name: evil}}]}", "{proc: [{'<<': 1}]}"),
+        ("{Event: {'<<': {EventID: 4688}}}", "{Event: {}}"),
+        ("{'~': {name: evil}, 'null': {name: evil}}", "{'~': 1}"),
     ];
     for (body, conds) in rules.iter() {
         for cond in conds {
@@ -956,6 +973,27 @@ pub fn run_c04(ctx: &mut Ctx, _known: &Known) {
             texts.push(format!("detection:\n  A:\n    foo: bar\n  condition: A\ntrue_negatives: []\ntrue_positives: []\ndetection: {}\n", dupval));
             texts.push(format!("optimised: {}\ndetection:\n  A:\n    foo: bar\n  condition: A\ntrue_negatives: []\ntrue_positives: []\noptimised: {}\n", dupval, dupval));
             texts.push(format!("detection:\n  A:\n    foo: bar\n    foo: {}\n  condition: A\ntrue_negatives: []\ntrue_positives: []\n", dupval));
+        }
+        // error paths at every LENGTH of the name / key / pattern involved (fixed-size scratch
+        // buffers, edit-distance rows, truncated messages: the thresholds are powers of two and
+        // their neighbours): an undefined identifier next to a defined one of that length, an
+        // invalid regex, an unclosed modifier, an invalid character behind that many bytes
+        {
+            let mut lens: Vec<usize> = (1..=70).collect();
+            lens.extend([126, 127, 128, 129, 130, 254, 255, 256, 257, 258, 511, 512, 513, 1000, 1023, 1024, 1025, 4096]);
+            for l in lens {
+                let name = format!("N{}", "a".repeat(l - 1));
+                let typo = format!("N{}b", "a".repeat(l.saturating_sub(2)));
+                let multi = format!("N{}", "é".repeat(l / 2));
+                texts.push(format!("detection:\n  {}:\n    foo: bar\n  condition: {}\ntrue_positives: []\ntrue_negatives: []\n", name, typo));
+                texts.push(format!("detection:\n  {}:\n    foo: bar\n  B:\n    g: 1\n  condition: B and {}x\ntrue_positives: []\ntrue_negatives: []\n", name, name));
+                texts.push(format!("detection:\n  {}:\n    foo: bar\n  condition: {} and Q\ntrue_positives: []\ntrue_negatives: []\n", multi, multi));
+                texts.push(format!("detection:\n  {}:\n    foo: bar\n  condition: {}\ntrue_positives: []\ntrue_negatives: []\n", name, name));
+                texts.push(format!("detection:\n  A:\n    foo: '?({}'\n  condition: A\ntrue_positives: []\ntrue_negatives: []\n", "a".repeat(l)));
+                texts.push(format!("detection:\n  A:\n    'int({}': 1\n  condition: A\ntrue_positives: []\ntrue_negatives: []\n", "k".repeat(l)));
+                texts.push(format!("detection:\n  A:\n    foo: bar\n  condition: A and {}#\ntrue_positives: []\ntrue_negatives: []\n", "A and ".repeat(l / 6)));
+                texts.push(format!("detection:\n  A:\n    foo: ['{}', 5]\n  condition: all(A\ntrue_positives: []\ntrue_negatives: []\n", "x".repeat(l)));
+            }
         }
         let m = budget(ctx, 300, 5000);
         for i in 0..m {
